@@ -382,6 +382,8 @@ fn arena_workload<const M: usize>(bytes: &[u8], thorough: bool) -> ArenaOut {
         Bump::<M>::with_min_align_and_capacity(cap_req)
     };
     ledger::take_events(&mut evs);
+    // the chunk the constructor obtained (none for capacity 0): growth is measured against it as well
+    let ctor_chunk = evs.iter().filter(|e| e.kind == EvKind::Alloc).map(|e| e.size).last().unwrap_or(0);
     let cap = bump.chunk_capacity();
     if cap < cap_req {
         out.viol.push(format!("Bump<{M}>::with_capacity({cap_req}) reports chunk_capacity {cap}"));
@@ -424,7 +426,7 @@ fn arena_workload<const M: usize>(bytes: &[u8], thorough: bool) -> ArenaOut {
     let total_target: usize = if thorough { 1usize << (10 + (g(100) % 17)) } else { 1usize << (10 + (g(100) % 13)) };
     let dist = g(101) % 4;
     let mut k = 102;
-    let mut last_chunk = 0usize;
+    let mut last_chunk = ctor_chunk;
     let mut volume = 0usize;
     while volume < total_target {
         let x = g(k % bytes.len().max(1)) as usize;
@@ -454,6 +456,11 @@ fn arena_workload<const M: usize>(bytes: &[u8], thorough: bool) -> ArenaOut {
                 out.chunks += 1;
                 if e.size < last_chunk {
                     out.viol.push(format!("Bump<{M}>: new chunk of {} bytes is smaller than the previous one ({last_chunk}) although nothing was refused", e.size));
+                }
+                let km = k_meta();
+                let refused = evs.iter().any(|x| x.kind == EvKind::Refuse);
+                if !refused && last_chunk > km && e.size.saturating_sub(km) < 2 * (last_chunk - km) {
+                    out.viol.push(format!("Bump<{M}>: new chunk of {} bytes is less than double the previous one ({last_chunk}) although nothing was refused and no limit is set", e.size));
                 }
                 last_chunk = e.size;
             }
